@@ -167,6 +167,19 @@ Proof.
   split; [apply le_n_S in C; exact C|]. split; [reflexivity|]. intros x Hx. apply A in Hx. apply le_n_S in Hx. exact Hx.
 Qed.
 
+(* F43: the sibling placement with children splits the target's own family: on a / b / c / e (b, c children of a)
+   the code's index for a payload x at a's indent is 0 + 2 = 2, and c changes parent from a to x *)
+Theorem atf_sibling_index_refuted :
+  exists o ls i x, let ps := tree_parents o ls in let k := atf_sibling_index_children ps i in
+    ind (linfo_of (o_delims o) (ptext x)) = ind (linfo_of (o_delims o) (ptext (nth i ls (PL [] None)))) /\
+    has_children ps i = true /\
+    parent_of ps 2 = Some 0 /\ parent_of (tree_parents o (insert_at k x ls)) 3 = Some 2 /\
+    atf_ok o ls i k x = false.
+Proof.
+  exists (PO true false [33%N]), [PL [97%N] None; PL [32; 98]%N None; PL [32; 99]%N None; PL [101%N] None], 0, (PL [120%N] None).
+  vm_compute. repeat split; reflexivity.
+Qed.
+
 (* delete removes exactly the line and its descendants (descendants = transitive closure of the links, C03) *)
 Theorem delete_removes_family o ls i j x : i < length ls ->
   forall ls', text_effect o ls (ODelete i) = Ok ls' ->
